@@ -119,7 +119,7 @@ impl<'a> FciBuilder<'a> for FirBuilder {
 impl RtcpPacketWriter for FirBuilder {
     fn calculate_size(&self) -> Result<usize, RtcpWriteError> {
         let entries = self.ssrc_seq.len();
-        if entries > u16::MAX as usize / 2 - 2 {
+        if entries > u16::MAX as usize / 2 - 1 {
             return Err(RtcpWriteError::TooManyFir);
         }
         Ok(entries * 2 * 4)
